@@ -114,3 +114,29 @@ CLAIMED["C19"]["technique"] += ", start-up scan rules (error-before-entry in the
 CLAIMED["C19"]["text"] += "; the saver ranges over the whole table, writer and loader agree on the record stream, the snapshot is written to a temporary file, closed, then renamed; the start-up scan survives a missing directory and stray files"
 CLAIMED["C20"]["technique"] += ", WaitGroup accounting rule for goroutines, callback-outside-lock rule"
 CLAIMED["C20"]["text"] += "; a goroutine counted by the WaitGroup never waits on it and signals Done first; user callbacks are not invoked under an API mutex"
+
+# --- additions after the third robustness round and the fourth batch of seeded changes (DESIGN.md §5.1d)
+CLAIMED["C01"]["technique"] += ", single-writer rule for the socket, pool-escape rule (an object put back into a sync.Pool is not also returned)"
+CLAIMED["C01"]["text"] += "; the only writer of a connection's socket is the reply writer after dispatch; a pooled buffer is not returned to the caller after it was put back"
+CLAIMED["C02"]["technique"] += ", tested-before-use rule for int64 sums and negations of outside numbers (R-overflow-checked)"
+CLAIMED["C02"]["text"] += "; an int64 sum or negation of numbers that come from outside is tested for overflow before it is used"
+CLAIMED["C04"]["technique"] += ", tested-before-use rule for int64 sums (R-overflow-checked)"
+CLAIMED["C05"]["technique"] += ", iterate-while-modifying rule for dictionaries (R-dict-iterate-modify)"
+CLAIMED["C05"]["text"] += "; a dictionary is not removed from or stored into inside a loop driven by an iterator over it"
+CLAIMED["C06"]["technique"] += ", producer/consumer agreement of dictionary value types per kind of dictionary (R-dict-value-agree), iterate-while-modifying rule"
+CLAIMED["C06"]["text"] += "; a type assertion on a value taken out of a dictionary asserts a type the producers store in dictionaries of that kind"
+CLAIMED["C09"]["technique"] += ", before-and-after inertness of the error branches of the transaction control commands"
+CLAIMED["C10"]["technique"] += ", monotonic-counter clause"
+CLAIMED["C10"]["text"] += "; the version counter is only ever incremented"
+CLAIMED["C11"]["technique"] += ", all-paths disposal of the wake signal, structural identification of the blocking worker (select arm on the wake channel, registration call, attempt call)"
+CLAIMED["C12"]["technique"] += ", all-paths reset of the once-per-capture flag (R-C12-pending-reset)"
+CLAIMED["C12"]["text"] += "; the flag that limits unblock requests to one per capture is cleared on every path that ends the capture"
+CLAIMED["C13"]["technique"] += ", producer/consumer agreement of dictionary value types (R-dict-value-agree), edge-wise index-below-length proof for the pattern matcher (R-C13-index-var)"
+CLAIMED["C13"]["text"] += "; no type assertion on a dictionary value can fail for the kind of dictionary it is applied to; every variable index of the glob matcher is below the length on every way into the access"
+CLAIMED["C14"]["technique"] += ", constant-initial-database clause"
+CLAIMED["C14"]["text"] += "; a new connection starts on database 0"
+CLAIMED["C15"]["technique"] += ", constant-default-version and from-this-request clauses for HELLO, all-returns down-conversion rule (also replies produced by the hook)"
+CLAIMED["C15"]["text"] += "; a new connection speaks RESP2; every reply that leaves the dispatcher for a RESP2 connection passes the down-conversion"
+CLAIMED["C16"]["technique"] += ", pool-escape rule; names resolved through a recorded schema of types, fields, package variables and functions (renames do not move anchors)"
+CLAIMED["C20"]["technique"] += ", bounded-wait clause for goroutines the termination WaitGroup counts"
+CLAIMED["C20"]["text"] += "; a goroutine counted by the termination WaitGroup never waits for a blocking command's wake-up unless termination ends blocked commands"
